@@ -54,6 +54,24 @@ def deleted_continuity(c0, c1):
     return v
 
 
+def info_continuity(c0, c1, cmd):
+    """transition oracle on the per-stripe books for the commands that must not touch them: `rehash` only raises the rehash
+    flag (check time, bad mark and never-scrubbed mark stay), `touch` changes nothing there.  Returns violation dicts."""
+    v = []
+    if cmd not in ("rehash", "touch") or c0.blockmax != c1.blockmax:
+        return v
+    for pos in range(min(len(c0.info), len(c1.info))):
+        a, b = c0.info[pos], c1.info[pos]
+        if a is None or b is None:
+            if a != b:
+                v.append(dict(kind="info-word-appeared-or-vanished", cmd=cmd, pos=pos, before=a, after=b))
+            continue
+        if (a[0], a[1], a[3]) != (b[0], b[1], b[3]) or (cmd == "touch" and a[2] != b[2]) or (cmd == "rehash" and a[2] and not b[2]):
+            v.append(dict(kind="books-changed-by-%s" % cmd, pos=pos, before=a, after=b,
+                          fields="(check time, bad, rehash, never scrubbed)"))
+    return v[:8]
+
+
 def find_version(lab, c, disk, f, only_hash_of_block=None, any_stamp=False):
     """bytes of the version of file f (content record) that was synced, or None.
     Candidates come from the version store by identity; the recorded BLK/REP hashes pick among them.
